@@ -259,11 +259,12 @@ class Scenario:
                     cmds.append("xaddr " + H("user@example.com"))
             elif k == "user":
                 if o[1]:
-                    cmds += ["hdef 0 s - - - 1", "hadd 0"]
+                    # the user's stanza handler and the user's id handler (for the id "x1" = IdOther) go together
+                    cmds += ["hdef 0 s - - - 1", "hadd 0", "hdef 2 i %s 1" % IDSTR["other"], "hadd 2"]
                 if o[2] is not None:
                     cmds += ["hdef 1 t %d 1" % o[2], "hadd 1"]
             elif k == "userid":
-                cmds += ["hdef 2 i x1 1", "hadd 2"]
+                pass   # (historic op: the id handler is now registered by ('user', 1, ...))
             elif k == "env":
                 if not o[1]:
                     cmds.append("tlsnew fail")
@@ -505,7 +506,7 @@ def canon_trace(line):
         elif re.match(r"^H1@", p):
             toks.append("H:timed")
         elif re.match(r"^H2@", p):
-            toks.append("H:userid")
+            toks.append("H:user")      # the user's id handler: the model's OUserHandler as well
         elif p == "END":
             info["end"] = " ".join(parts[i:])
             break
@@ -975,7 +976,8 @@ class Observer:
 
     def _wire(self, att, tls, w):
         fl, of, cfg = att["flags"], att["offers"], att["cfg"]
-        cred = w.startswith("auth=") or w in ("response", "legacy")
+        # authentication data: SASL, legacy jabber:iq:auth, and the component handshake digest (XEP-0114)
+        cred = w.startswith("auth=") or w in ("response", "legacy", "handshake")
         if cred and (fl & 2) and not tls:
             self.viol["C02"].append("mandatory TLS but %s written in the clear" % w)
         if w == "starttls":
@@ -1369,18 +1371,16 @@ def resume_scenarios(rng, thorough=False):
 
 
 def userid_scenarios(rng, thorough=False):
-    """C03, implementation only (the model has no user id handlers): a user id handler, a user stanza handler and a user
-    timed handler are registered before connecting; the server sends an <iq/> carrying that id at every stage."""
+    """C03: a user id handler, a user stanza handler and a user timed handler are registered before connecting; the
+    server sends an <iq/> carrying that id at every stage."""
     S = []
     probe = iq("other", "result")
     for name, fl, kind, setup, steps in stage_sessions():
         for k in range(len(steps) + 1):
-            ops = base_ops(flags=fl, user=(1, 1)) + [("userid",)] + list(setup) + [("connect", kind, ["accept"]), ("run", None)] + runs(*steps[:k])
+            ops = base_ops(flags=fl, user=(1, 1)) + list(setup) + [("connect", kind, ["accept"]), ("run", None)] + runs(*steps[:k])
             ops += [("run", ("items", [probe])), ("run", None), ("clock", 5), ("run", None)] + runs(*steps[k:]) + [("run", ("items", [probe])), ("run", None)]
             ops += [("is",), ("run", "close"), ("run", None), ("release",)]
-            sc = Scenario(ops, "userid:%s:%d" % (name, k))
-            sc.impl_only = True
-            S.append(sc)
+            S.append(Scenario(ops, "userid:%s:%d" % (name, k)))
     return S
 
 
